@@ -273,7 +273,8 @@ def build(spec, da=None, attrs=None):
         warm(parent, da)
         a = parent.take(sl, indexing="position")      # (not .ix: it toggles under indexing.by='position')
     elif mode == "relabel":
-        a = da.DimArray(vals, axes=[da.Axis(np.arange(len(l)), d) for l, d in zip(labels, dims)])
+        shuffled = hist.get("init") == "shuffled"       # queried while unordered (n >= 3), then relabelled: a cached "not monotonic" must not survive
+        a = da.DimArray(vals, axes=[da.Axis(np.roll(np.arange(len(l)), 1) if shuffled else np.arange(len(l)), d) for l, d in zip(labels, dims)])
         warm(a, da)
         for d, l in zip(dims, labels):
             if len(l):
